@@ -37,6 +37,7 @@ type Session struct {
 	Samples      int           `json:"samples"`
 	NSites       int           `json:"nsites"`
 	StopOnViol   bool          `json:"stop_on_violation"`
+	Variant      string        `json:"variant,omitempty"` // which worker binary runs this session ("" = as shipped, "small" = capacity knobs shrunk)
 }
 
 type ECall struct {
@@ -101,6 +102,11 @@ type Summary struct {
 	SimNS         int64                  `json:"sim_ns"`
 	MaxProcs      int                    `json:"gomaxprocs"`
 	ShapeRuns     map[string]int64       `json:"shape_runs"`
+	CovEdgesBase  int                    `json:"cov_edges_base"`
+	CovEdges      int                    `json:"cov_edges"`
+	CovKept       int                    `json:"cov_kept"`
+	DictSize      int                    `json:"dict_size"`
+	InitHits      []uint32               `json:"init_hits,omitempty"`
 	TasksHist     map[int]int64          `json:"tasks_hist"`
 	extra         map[string]interface{} `json:"-"`
 }
@@ -182,7 +188,11 @@ func Main(isSQLi func(string) (bool, string), isXSS func(string) bool, globals f
 		before = hashEach(globals())
 		w.sum.GlobalsBefore = fold(before)
 	}
-	w.runSession()
+	if ses.Mode == "cover" {
+		w.modeCover(exec, globals)
+	} else {
+		w.runSession()
+	}
 	if globals != nil && w.sum.Aborted == "" {
 		after := hashEach(globals())
 		w.sum.GlobalsAfter = fold(after)
@@ -195,6 +205,9 @@ func Main(isSQLi func(string) (bool, string), isXSS func(string) bool, globals f
 	w.sum.WallMS = time.Since(start).Milliseconds()
 	if ses.NSites > 0 {
 		w.sum.SiteHits = simrt.SiteHits(ses.NSites + 1)
+		if ses.Mode == "seqall" {
+			w.sum.InitHits = simrt.InitHits(ses.NSites + 1)
+		}
 	}
 	sc := simrt.SyncCounts()
 	w.sum.SyncOps = map[string]int64{}
